@@ -287,6 +287,8 @@ def cfgs(ctx):
         out.append(dict(sid=sid, name="T1-finite", ttl=3, refresh=2, collect=C, frac=frac))
         out.append(dict(sid=sid, name="T2-infinite-no-refresh", ttl=INF, refresh=None, collect=C, frac=frac))
         out.append(dict(sid=sid, name="T3-infinite-refresh", ttl=INF, refresh=2, collect=0, frac=frac))
+        if ctx.thorough:
+            out.append(dict(sid=sid, name="T4-finite-short", ttl=2, refresh=1, collect=0, frac=frac))
     return out
 
 
